@@ -142,6 +142,16 @@ var sm2CertCache sync.Map
 
 func sm2Party(i int) (*x509.Certificate, *sm2.PrivateKey) {
 	k := keyFor(950 + i)
+	switch i { // parties 4..7: private scalars with leading zero bytes (fixed-width encodings must left-pad them)
+	case 4:
+		k = privFromD(big.NewInt(1))
+	case 5:
+		k = privFromD(new(big.Int).Rsh(keyFor(955).D, 8)) // 31 bytes
+	case 6:
+		k = privFromD(new(big.Int).Rsh(keyFor(956).D, 24)) // 29 bytes
+	case 7:
+		k = privFromD(new(big.Int).SetBytes(append([]byte{0x80}, make([]byte, 30)...))) // 2^247, 31 bytes
+	}
 	if c, ok := sm2CertCache.Load(i); ok {
 		return c.(*x509.Certificate), k
 	}
@@ -557,7 +567,7 @@ func evalP12(args []string) string {
 	if !ok1 || !ok2 {
 		return "bad-op"
 	}
-	cert, key := sm2Party(id % 4)
+	cert, key := sm2Party(id % 8)
 	pfx, err := pkcs12.Encode(key, cert, nil, string(pwd))
 	if err != nil {
 		return "reject"
@@ -727,7 +737,7 @@ func genC17(r *rng, tier string, emit func(string)) {
 			b[len(b)-1] ^= 1
 			w = string(b)
 		}
-		emit(fmt.Sprintf("p12 %s %s %d", hx([]byte(p)), hx([]byte(w)), r.intn(4)))
+		emit(fmt.Sprintf("p12 %s %s %d", hx([]byte(p)), hx([]byte(w)), i%8))
 	}
 	c17kGen(r, tier, emit) // PKCS#12 KDF / MAC / PBE / MAC decision (Model.PKCS12)
 }
